@@ -405,10 +405,10 @@ func cmdRun(args []string) {
 	wg.Wait()
 	os.RemoveAll(b.tmp)
 
-	// assumption check (thorough tier): free-running -race pass of the same kinds of workloads
+	// assumption check (both tiers; VERIF_RACEPASS=0 skips it): free-running -race pass of the same kinds of workloads
 	var raceInfo map[string]any
 	var raceViolation *violation
-	if *tier == "thorough" || os.Getenv("VERIF_RACEPASS") == "1" {
+	if os.Getenv("VERIF_RACEPASS") != "0" {
 		if ran, report, w, rerr := racePass(*repo, prop); ran {
 			raceInfo = map[string]any{"tests": raceTests[prop], "wall_s": w, "role": "assumption check (sampling): the explorer switches goroutines only at synchronisation operations, which is complete for data-race-free code; not counted as coverage"}
 			switch {
@@ -562,6 +562,9 @@ func cmdRun(args []string) {
 	if err := os.WriteFile(filepath.Join(evDir, prop+".json"), eb, 0o644); err != nil {
 		die(2, "writing evidence: %v", err)
 	}
+	// a per-tier copy, so that a quick run does not erase the record of the last thorough run
+	os.MkdirAll(filepath.Join(evDir, "by-tier"), 0o755)
+	os.WriteFile(filepath.Join(evDir, "by-tier", prop+"."+*tier+".json"), eb, 0o644)
 	for _, l := range kfLines {
 		fmt.Printf("KNOWN-FINDING: property=%s %s\n", prop, l)
 	}
@@ -601,7 +604,7 @@ func racePass(repo, prop string) (ran bool, report string, wall float64, err err
 		return false, "", 0, nil
 	}
 	t0 := time.Now()
-	args := []string{"test", "-race", "-count=1", "-run", pat}
+	args := []string{"test", "-race", "-count=1", "-timeout", "180s", "-run", pat}
 	abs, _ := filepath.Abs(repo)
 	var tmp string
 	if abs != "/repo" {
